@@ -14,6 +14,9 @@ type Enc struct {
 	KeepDefaults bool
 	// ListForBytes: encode vector<byte> as LIST of int8 elements instead of simple list.
 	ListForBytes bool
+	// SimpleForU8: encode vector<unsigned byte> in the simple-list form (legal for a reader,
+	// which accepts both forms; the framework's own writer uses the LIST form).
+	SimpleForU8 bool
 	// Widen: encode integers one width wider than necessary where the schema type admits
 	// it (still legal for a reader of the declared type).
 	Widen bool
@@ -170,7 +173,7 @@ func (e *Enc) Value(t *Type, v any, tag int) {
 		e.Str(v.(string), tag)
 	case KVector, KArray:
 		l := v.([]any)
-		if IsSimpleList(t) && !e.ListForBytes {
+		if (IsSimpleList(t) && !e.ListForBytes) || (e.SimpleForU8 && t.Elem.Kind == KU8) {
 			b := make([]byte, len(l))
 			for i, x := range l {
 				b[i] = byte(x.(int64))
